@@ -41,6 +41,7 @@
 from enum import Enum
 from fparser.two import Fortran2003
 from fparser.two.utils import walk
+from psyclone.core import AccessType, Signature
 from psyclone.psyir.nodes.statement import Statement
 from psyclone.psyir.nodes.datanode import DataNode
 
@@ -158,6 +159,20 @@ class CodeBlock(Statement, DataNode):
         '''
         parse_tree = self.get_ast_nodes
         return [node.string for node in walk(parse_tree, Fortran2003.Name)]
+
+    def reference_accesses(self, var_accesses):
+        '''Get all variable access information. Since the content of a
+        CodeBlock is not analysed, every name used in it is conservatively
+        marked as READWRITE.
+
+        :param var_accesses: VariablesAccessInfo instance that stores the
+            information about variable accesses.
+        :type var_accesses: :py:class:`psyclone.core.VariablesAccessInfo`
+
+        '''
+        for name in self.get_symbol_names():
+            var_accesses.add_access(Signature(name.lower()),
+                                    AccessType.READWRITE, self)
 
     def __str__(self):
         return f"CodeBlock[{len(self._fp2_nodes)} nodes]"
